@@ -214,6 +214,31 @@ func checkRecord(c RCase) error {
 	if err := sameRecord(f, c0); err != nil {
 		return fmt.Errorf("unmarshal(marshal(v)): %v", err)
 	}
+	// (4) a second, different record of the same length arrives in the same read buffer
+	buf := append([]byte(nil), refBytes...)
+	first := avc.NewAVCDecoderConfigurationRecord()
+	if err := first.UnmarshalBinary(buf); err != nil {
+		return fmt.Errorf("unmarshal from a read buffer: %v", err)
+	}
+	c2 := c
+	c2.Profile, c2.Level = c.Profile^0x01, c.Level^0x03
+	c2.SPS, c2.PPS = append([]N(nil), c.SPS...), append([]N(nil), c.PPS...)
+	for i := range c2.SPS {
+		c2.SPS[i].Hdr, c2.SPS[i].Fill = c2.SPS[i].Hdr^0x20, c2.SPS[i].Fill+1
+	}
+	for i := range c2.PPS {
+		c2.PPS[i].Hdr, c2.PPS[i].Fill = c2.PPS[i].Hdr^0x40, c2.PPS[i].Fill+7
+	}
+	if ref2 := avccref.Write(c2.ref()); len(ref2) == len(buf) {
+		copy(buf, ref2)
+		second := avc.NewAVCDecoderConfigurationRecord()
+		if err := second.UnmarshalBinary(buf); err != nil {
+			return fmt.Errorf("unmarshal of a second record received into the same buffer: %v", err)
+		}
+		if err := sameRecord(second, c2); err != nil {
+			return fmt.Errorf("a second record of the same length received into the same buffer as the first: %v", err)
+		}
+	}
 	// the first record's bytes were held while another record was marshalled
 	if !bytes.Equal(out, refBytes) {
 		return fmt.Errorf("the bytes MarshalBinary returned for one record changed when another record was marshalled (offset %d)", firstDiff(out, refBytes))
@@ -268,28 +293,48 @@ var recRecord = ev.New(prop, "records",
 		"non-trivial = >=2 parameter sets or a NAL >=255 bytes or length size != 4").
 	Require("many-sets", "big-nal", "lsm", "ext", "sps31", "pps255")
 
+func genRCase(t *rapid.T) RCase {
+	c := RCase{Profile: rapid.Uint8().Draw(t, "profile"), Compat: rapid.Uint8().Draw(t, "compat"), Level: rapid.Uint8().Draw(t, "level"), LSM: uint8(rapid.IntRange(0, 3).Draw(t, "lsm"))}
+	if rapid.Bool().Draw(t, "profk") {
+		// the values the standard defines (the three header bytes also mean something together:
+		// e.g. level 11 with constraint_set3 is level 1b for the Baseline/Main/Extended profiles)
+		c.Profile = rapid.SampledFrom([]uint8{66, 77, 88, 100, 110, 122, 144, 244, 44, 83, 86, 118, 128}).Draw(t, "profc")
+		c.Level = rapid.SampledFrom([]uint8{9, 10, 11, 12, 13, 20, 21, 22, 30, 31, 32, 40, 41, 42, 50, 51, 52}).Draw(t, "levelc")
+		c.Compat = rapid.SampledFrom([]uint8{0, 0x10, 0x1c, 0x40, 0x80, 0xc0, 0xe0, 0xf0, 0xff, 0x08}).Draw(t, "compatc")
+	}
+	ns := rapid.SampledFrom([]int{0, 1, 1, 2, 3, 31, -1}).Draw(t, "nsps")
+	if ns < 0 {
+		ns = rapid.IntRange(0, 31).Draw(t, "nspsu")
+	}
+	np := rapid.SampledFrom([]int{0, 1, 1, 2, 3, 255, -1, -2}).Draw(t, "npps")
+	if np == -1 {
+		np = rapid.IntRange(0, 255).Draw(t, "nppsu")
+	}
+	if np == -2 {
+		// the two counters together fill a byte / the 5 bits exactly
+		np = rapid.SampledFrom([]int{256 - ns, 255 - ns, 32 - ns, 224 - ns}).Draw(t, "nppsw")
+		np = min(max(np, 0), 255)
+	}
+	small := ns+np > 8
+	for i := 0; i < ns; i++ {
+		c.SPS = append(c.SPS, genN(t, small))
+	}
+	for i := 0; i < np; i++ {
+		c.PPS = append(c.PPS, genN(t, small))
+	}
+	c.Ext = rapid.IntRange(0, 3).Draw(t, "ext") == 0
+	return c
+}
+
+// TestSideBySide: independent records on several goroutines at once.
+func TestSideBySide(t *testing.T) {
+	ev.Parallel(t, prop, "side-by-side", 4, 300, 80, genRCase, checkRecord)
+}
+
 func TestRecords(t *testing.T) {
 	ev.Rapid(t, "records", 4000, 1500000, func(t *rapid.T) {
-		c := RCase{Profile: rapid.Uint8().Draw(t, "profile"), Compat: rapid.Uint8().Draw(t, "compat"), Level: rapid.Uint8().Draw(t, "level"), LSM: uint8(rapid.IntRange(0, 3).Draw(t, "lsm"))}
-		if rapid.Bool().Draw(t, "profk") {
-			c.Profile = rapid.SampledFrom([]uint8{66, 77, 88, 100, 110, 122, 144, 244}).Draw(t, "profc")
-		}
-		ns := rapid.SampledFrom([]int{0, 1, 1, 2, 3, 31, -1}).Draw(t, "nsps")
-		if ns < 0 {
-			ns = rapid.IntRange(0, 31).Draw(t, "nspsu")
-		}
-		np := rapid.SampledFrom([]int{0, 1, 1, 2, 3, 255, -1}).Draw(t, "npps")
-		if np < 0 {
-			np = rapid.IntRange(0, 255).Draw(t, "nppsu")
-		}
-		small := ns+np > 8
-		for i := 0; i < ns; i++ {
-			c.SPS = append(c.SPS, genN(t, small))
-		}
-		for i := 0; i < np; i++ {
-			c.PPS = append(c.PPS, genN(t, small))
-		}
-		c.Ext = rapid.IntRange(0, 3).Draw(t, "ext") == 0
+		c := genRCase(t)
+		ns, np := len(c.SPS), len(c.PPS)
 		err := ev.Try(func() error { return checkRecord(c) })
 		var cl []string
 		if ns+np >= 2 {
@@ -484,6 +529,13 @@ func replayers() map[string]ev.Replayer {
 				return err
 			}
 			return checkNALU(n)
+		},
+		"side-by-side": func(raw json.RawMessage) error {
+			var c RCase
+			if err := json.Unmarshal(raw, &c); err != nil {
+				return err
+			}
+			return checkRecord(c)
 		},
 		"records": func(raw json.RawMessage) error {
 			var c RCase
